@@ -534,9 +534,15 @@ def paths(src=None, dst=None, dst_nets=None, block=None):
                 for i in range(len(paths)):
                     # Check if there is a path in paths[i+1:] that is the suffix
                     # of paths[i] (paths[i] is at least as large as each path in
-                    # paths[i+1:]). If so, paths[i] contains a loop since both start
-                    # at src_wire, so don't keep it.
-                    if not any(paths[i][-len(p):] == p for p in paths[i + 1:]):
+                    # paths[i+1:]) and the rest of paths[i] leads back to src_wire.
+                    # If so, paths[i] contains a loop since both start at src_wire,
+                    # so don't keep it. (A shared suffix alone is not a loop: paths
+                    # that merely reconverge are distinct simple paths.)
+                    def loops_into(p):
+                        head = paths[i][:len(paths[i]) - len(p)]
+                        return (paths[i][len(head):] == p
+                                and (not head or any(w is src_wire for w in head[-1].dests)))
+                    if not any(loops_into(p) for p in paths[i + 1:]):
                         keep.append(paths[i])
                 paths = keep
             all_paths[src_wire][dst_wire] = paths
